@@ -1,5 +1,5 @@
 # replay of a bounded stand-in violation (C13): re-run native/c13_tdm.py
 import sys
-print("calls ('space1', 'unroll2', 'space1'): the program no longer runs: IndexError: list index out of range")
+print('TDM N=3, 3 time bins, shift=1: the unrolled circuit addresses modes [(2,), (0, 2), (2,), (0,), (1,), (2, 1), (1,), (2,)]..., a left rotation by 1 per bin gives [(2,), (0, 2), (2,), (0,), (0,), (1, 0), (0,), (1,)]...')
 print('REPLAY-VIOLATION')
 sys.exit(1)
